@@ -45,6 +45,7 @@ def HW():
     P, B, T, E, B2 = "plain", "br", "text", "end", "br2"
     return [
         (P, b"a1"), (P, b"a2"), (P, b"a3"), (P, b"b7"), (P, b"a10"), (P, b"a100"), (P, b"b70"), (P, b"a1x"), (P, b"n01"), (P, b"n02"), (P, b"c1-0"), (P, b"c2-1"), (P, b"d1-ib"), (P, b"x.dom.org"),
+        (P, b"A1"), (P, b"B7"), (P, b"N01"), (B, b"A", [(b"1", b"3")], (E,)),     # differ from a1, b7, n01, a[1-3] in case only: different hosts
         (B, b"a", [(b"1", b"3")], (E,)), (B, b"a", [(b"2", None), (b"4", None)], (E,)), (B, b"a", [(b"3", b"5")], (E,)),
         (B, b"n", [(b"01", b"03")], (E,)), (B, b"n", [(b"1", b"2")], (E,)), (B, b"b", [(b"7", b"8")], (E,)),
         (B, b"d", [(b"1", b"2")], (T, b"-ib")),
@@ -111,7 +112,10 @@ def gen_reg_case(r, eng):
     cmd = r.choice([[b"true"], [b"echo", b"hi"], [b"echo", b"%h", b"%u"], [b"a  b", b"", b"c"], [b"x", b"%"], [b"sh", b"-c", b"echo $0; exit 3"]])
     # where -l / -R stand relative to the -w words must not matter: 0 = before, 1 = after, 2 = between the -w options
     late = r.choice([0, 0, 1, 2])
-    return {"part": "reg", "config": config, "groups": groups, "optl": optl, "optR": optR, "envR": envR, "excl": excl, "cmd": cmd, "late": late}
+    # blanks after the commas of a -w argument are not part of the next word
+    blanks = r.choice([b" ", b"\t", b"  "]) if r.chance(1, 5) else b""
+    return {"part": "reg", "config": config, "groups": groups, "optl": optl, "optR": optR, "envR": envR, "excl": excl, "cmd": cmd, "late": late,
+            "blanks": blanks}
 
 
 RAW_WORDS = [b"a::b@a1", b"reca:@a1", b"@a1", b":bob@a1", b"bob@a1:x", b"reca:bob@a1@x", b"reca:recb:a1", b"reca::a1", b"reca:a1",
@@ -177,7 +181,7 @@ def reg_argv(case):
         opts += ["-R", t]
     ws = []
     for g in case["groups"]:
-        ws.append(["-w", b",".join(word_text(w) for w in g)])
+        ws.append(["-w", (b"," + (case.get("blanks") or b"")).join(word_text(w) for w in g)])
     late = case.get("late", 0)
     if late == 0:
         argv = opts + [x for w in ws for x in w]
